@@ -742,10 +742,10 @@ func init() {
 		InitPkgs: []string{mod + "/mp4", mod + "/examples/segmenter", mod + "/examples/resegmenter", mod + "/examples/combine-segs"},
 		Instances: func(tier string, L *Loaded) []*HarnessCfg {
 			var r []*HarnessCfg
-			for _, lay := range []string{"v", "vc", "va", "vr", "var"} {
+			for _, lay := range []string{"v", "vc", "va", "vr", "var", "v1", "va1"} {
 				for _, d := range []int{1, 40, 80, 100, 200} {
 					for _, mode := range []string{"single", "multi", "lazy"} {
-						if tier != "thorough" && (lay == "vr" || lay == "var") && (d == 1 || d == 100) {
+						if tier != "thorough" && (lay == "vr" || lay == "var" || lay == "v1" || lay == "va1") && (d == 1 || d == 100) {
 							continue
 						}
 						r = append(r, inst(mod+"/examples/segmenter", "VerifC11Segmenter", lay, itoa(d), mode))
@@ -785,7 +785,8 @@ func init() {
 		Instances: func(tier string, L *Loaded) []*HarnessCfg {
 			var r []*HarnessCfg
 			for _, ko := range [][2]string{{"clear", "decodeSR+info+encode"}, {"clear", "decode+info+encode"}, {"mfra", "decodeSR+info+encode"}, {"mfra", "decode+info+encode"},
-				{"cenc", "decodeSR+decrypt"}, {"cenc", "decode+decrypt"}, {"cbcs", "decodeSR+decrypt"}, {"cbcs", "decode+decrypt"}, {"cenc", "decodeSR+info+encode"}} {
+				{"cenc", "decodeSR+decrypt"}, {"cenc", "decode+decrypt"}, {"cbcs", "decodeSR+decrypt"}, {"cbcs", "decode+decrypt"}, {"cenc", "decodeSR+info+encode"},
+				{"aclear", "encrypt-cenc"}, {"aclear8", "encrypt-cenc"}, {"aclear", "encrypt-cbcs"}} {
 				c := inst(mod+"/mp4", "VerifC20", ko[0], ko[1])
 				c.WriteMon = true
 				c.PanicIsViol = false
